@@ -59,6 +59,7 @@ def _event(tok):
     if k == "XX": return "ExX %s" % p[1]
     if k == "SX": return "SFX %s" % p[1]
     if k == "SR": return "SRX %s" % p[1]
+    if k == "FX": return "FSX %s" % p[1]
     if k == "PX": return "PuX %s %s %s" % (p[1], _b(p[2] == "1"), _b(p[3] == "1"))
     if k == "TX": return "TagX %s %s" % (p[1], _b(p[2] == "1"))
     if k == "MX": return "MtX %s %s" % (p[1], _b(p[2] == "1"))
@@ -121,7 +122,7 @@ def _goals(case, out):
 
 def vm_sample():
     def hook(d, tier, coq, build):
-        want = 300 if tier == "thorough" else 40
+        want = 300 if tier == "thorough" else 30
         outs = {}
         with open(os.path.join(d, "model.txt")) as f:
             for l in f:
